@@ -413,7 +413,7 @@ def _none_constructor_md(loader, tag_suffix, node):
 @rethrow_as_parsing_error
 def _simple_path_constructor(loader, node):
     from .nodes.path import PathNode
-    return _make_node(loader, node, node_type=PathNode, kwargs={ 'ref_point': None })
+    return _make_node(loader, node, node_type=PathNode, kwargs={ 'ref_point': None }, dict_is_data=False)
 
 
 @rethrow_as_parsing_error
